@@ -91,6 +91,9 @@ def as_time(t, mode):
     does not exist on 2024-03-31 in the pinned zone (02:59:5x ... 03:00:0x), where local-time conversions are not monotone."""
     if not mode:
         return t
+    if mode == 3:  # time stamps taken from a numpy array / a pandas column
+        import numpy as np
+        return np.float64(t) if isinstance(t, float) else np.int64(t)
     import datetime
     if mode == 2:
         return datetime.datetime(2024, 3, 31, 2, 59, 55) + datetime.timedelta(seconds=t % 10.0)
